@@ -187,6 +187,21 @@ fn main() {
             });
         }
     }
+    // native mania with a fractional key count under mods that rebuild or relabel the columns (Random with two seeds, Invert,
+    // HoldOff + Invert + Random): the stars must follow from the peaks that strains() returns for the same mods
+    {
+        let cfg = gen::ModeCfg { src: 3, dst: 3 };
+        let alpha = gen::Alphabet::product(&[gen::Kind::Circle, gen::Kind::Hold(100), gen::Kind::Hold(300)], &[0, 150], &[gen::PosK::Same], &[0], &[0, 1, 2]);
+        let n_max = 3u32;
+        let per = alpha.count_upto(n_max);
+        let keys = [4u8, 5, 6, 7];
+        let menu = vec![Setting::nm(), Setting::mods(ModSpec::Random(Some(1337.0))), Setting::mods(ModSpec::Random(Some(3.0))), Setting::mods(ModSpec::Invert), Setting::mods(ModSpec::HoIn(Some(5.0)))];
+        ctx.universe("mania-half-keys/3to3/N<=3", per * keys.len() as u64, |idx, l| {
+            let spec = gen::MapSpec { keys: keys[(idx / per) as usize], cs_tenths: 5, ..gen::MapSpec::new(3, alpha.seq(idx % per, n_max)) };
+            let map = spec.decode();
+            check_map(l, cfg, &spec, &map, &menu);
+        });
+    }
     let n_max = ctx.pick(3, 4);
     for first_start in [1000, -500, 0, 400] {
         let mut opts = UniOpts::new(n_max);
